@@ -10,6 +10,8 @@ KINDS = ["ko_gene"] * 6 + ["ko_genes"] * 3 + ["ko_rxn"] * 2 + ["enter", "exit", 
 # knock-outs interleaved with what a user does between them: re-opening bounds, flags set directly, rules edited in place
 KINDS2 = ["ko_gene"] * 5 + ["ko_genes"] * 3 + ["ko_rxn", "set_bounds", "set_bounds", "set_functional", "set_functional", "set_rule",
           "remove_genes", "remove_genes", "rename_genes", "enter", "exit", "exit"]
+# ... and calls that only read the model (a detached copy of a reaction, a sum of two) between the knock-outs
+KINDS3 = ["ko_gene"] * 5 + ["ko_genes"] * 2 + ["rcopy"] * 3 + ["radd"] * 2 + ["ko_rxn", "enter", "enter", "exit", "exit"]
 RULE = ("random models with shared genes and nested and/or rules; random sequences of Gene.knock_out, knock_out_model_genes (subsets, any order, "
         "repeats) and Reaction.knock_out inside/outside nested contexts; after every step bounds, gene.functional, reaction.functional and the "
         "GLPK column bounds are compared with an independent truth-table evaluator; counted: distinct (model, last three ops)")
@@ -103,7 +105,7 @@ def oracle(op, err, before, ex):
 
 def run(ctx):
     return core_checks.run_core_property(ctx, "CobraModel.Props.C07", kinds=KINDS, oracles=("ctx",), quick=500, thorough=10000, rule=RULE,
-                                         extra_oracle=oracle, maxlen=12, profiles=[KINDS, KINDS2],
+                                         extra_oracle=oracle, maxlen=12, profiles=[KINDS, KINDS2, KINDS3],
                                          assumptions=["the multi-gene statement is obtained by iterating the one-gene theorem; its closed form over an arbitrary "
                                                       "knock-out list is checked by the truth-table oracle, not yet a single theorem"])
 
